@@ -7,6 +7,14 @@ P="$(readlink -f "$1")"; shift
 D="$(mktemp -d /tmp/mut-XXXXXX)"
 mkdir -p "$D"
 cp -r /repo/python /repo/docs "$D"/
+if ! ( cd "$D" && patch -s -p1 --dry-run < "$P" >/dev/null 2>&1 ); then
+  # written against an earlier commit of /repo? (recorded in meta.json)
+  BASE="$(sed -n 's/.*"base": "\([0-9a-f]\{7,40\}\)".*/\1/p' "$(dirname "$P")/meta.json" 2>/dev/null | head -1)"
+  if [ -n "$BASE" ]; then
+    rm -rf "$D"; mkdir -p "$D"
+    git -C /repo archive "$BASE" python docs | tar -x -C "$D"
+  fi
+fi
 ( cd "$D" && patch -s -p1 < "$P" ) || { echo "PATCH-FAILED $P"; rm -rf "$D"; exit 3; }
 cd "$(dirname "$0")/.."
 for id in "$@"; do
